@@ -84,6 +84,7 @@ class Sched:
         self.trace_codes: set = set()
         self.watch_codes: set = set()
         self.frames: List[tuple] = []
+        self.on_wake: Optional[Callable[[VThread, Optional[str]], None]] = None
 
     # ---- baton ------------------------------------------------------------
     def _switch_to(self, vt: VThread) -> None:
@@ -276,6 +277,8 @@ class Sched:
             if vt.deadline is not None and vt.deadline > self.now:
                 self.now = vt.deadline
         self.trace.append(("run", vt.name, vt.wake_reason, self.now))
+        if self.on_wake is not None and vt.state in ("blocked", "sleeping"):
+            self.on_wake(vt, vt.wake_reason if vt.state == "blocked" else "slept")
         self.current = vt
         vt.sem.release()
         self.main.sem.acquire()
